@@ -93,7 +93,7 @@ func check(c scen.Case) verdict {
 }
 
 // damage ops weighted towards "all slices findable but files wrong"
-var ops = []string{"insert", "insert", "swap", "copy", "trimzeros", "append", "appendzeros", "remove", "overwrite", "flip", "delete", "truncate"}
+var ops = []string{"insert", "insert", "swap", "copy", "move", "trimzeros", "append", "appendzeros", "remove", "overwrite", "flip", "delete", "truncate", "crcforge", "crcforge"}
 
 func gen(t *rapid.T) scen.Case {
 	S := scen.GenSlice(t)
